@@ -257,6 +257,7 @@ def plan(pid, tier):
     P['C14'] = lambda: (rc_jobs('h_state', 'c14', 8, 400 if q else 6000) + sweep_jobs('h_state', 'c14_exhaustive', 8))
     P['C15'] = lambda: rc_jobs('h_state', 'c15', 16, 2500 if q else 40000)
     P['C16'] = lambda: (rc_jobs('h_state', 'c16', 14, 1200 if q else 20000) + sweep_jobs('h_state', 'c16_pairs', 2))
+    P['C17'] = lambda: (sweep_jobs('h_fault', 'c17_single', 6) + rc_jobs('h_fault', 'c17', 10, 400 if q else 6000))
     P['C20'] = lambda: rc_jobs('h_codec', 'c20', 16, 1500 if q else 40000)
     if pid not in P:
         return None
@@ -280,9 +281,10 @@ RULES = {
     'C14': 'histories over <=4 slots of create (5 back ends, many shapes), failing create (7 kinds), destroy, destroy of dead descriptors, use (encode/decode/reconstruct vs reference), probe of 12 entry points with a dead descriptor, and presets of the exported descriptor counter to INT_MAX-3..INT_MAX; after EVERY step a behavioural scan of the registry (size query on every descriptor ever seen +-2, 1..8 and INT_MAX-8..INT_MAX after a preset) must equal the model and every live instance must round-trip; plus all sequences over a 12-symbol alphabet to depth 5 (quick) / 6 (thorough). Non-trivial: two live instances of one back end at some point and a non-LIFO destroy or a counter wrap.',
     'C15': 'histories mixing encode/decode/reconstruct/metadata/validation/failing calls/other instances/encode on a fresh thread; at the end every kept stripe is decoded, reconstructed and re-encoded with all inputs (data, every fragment, the pointer array) on PROT_READ pages flush against PROT_NONE pages (end- or start-flush, aligned and unaligned); every encode output must equal the independent serializer (a pure function of configuration and data). Non-trivial: same (configuration, data) encoded at two points of the history and a rebuild happened.',
     'C16': 'histories (<=300 steps) mixing valid calls with cleanup, beyond-tolerance/duplicated/insufficient sets, damaged headers, invalid arguments, failing creates and dead-descriptor probes; ASan reports double free / use-after-free at once, LeakSanitizer recoverable check after destroying all instances at the end of each history; plus one encode/decode/cleanup/destroy + leak check per shape. Non-trivial: at least one failing call and one successful rebuild in the history.',
+    'C17': 'fault enumeration: the back end operation tables are patched with wrappers that fail chosen call numbers (three modes: fail before the work, do the work then report failure, another negative code). Enumerated: a scripted workload (create, 3 encodes, decode with lost data / lost parity, reconstruct data / parity, 2 fragments_needed, second create, destroy, encode, decode) per back end x every call position of init/encode/decode/reconstruct/fragments_needed x 3 modes; generated: random workloads with random fault sets. Oracle: public rc<0 for the faulted call, no cleanup call made and LeakSanitizer clean, immediate retry succeeds with exact results, registry usable, plugin dlopen reference returned. Non-trivial: at least one injected fault was reached.',
     'C20': 'rapidcheck-generated (configuration with CRC32, data, presented multiset, damaged subset: payload bit flips, re-sealed header field edits, unsealed header damage), decode with force=1. Non-trivial: at least one damaged DATA fragment.',
 }
-LEVELS = {}
+LEVELS = {'C17': 'fault_enumeration'}
 
 
 def load_known():
@@ -348,6 +350,8 @@ for _m in ['c13_grid', 'c13_grid_rc', 'c13_box', 'c13_box_rc']:
     MODE_HARNESS[_m] = ('h_args', 'asan')
 for _m in ['c14', 'c14_exhaustive', 'c15', 'c16', 'c16_pairs']:
     MODE_HARNESS[_m] = ('h_state', 'asan')
+for _m in ['c17', 'c17_single']:
+    MODE_HARNESS[_m] = ('h_fault', 'asan')
 for _m in ['c07', 'c07_sweep', 'c08', 'c08_sweep', 'c04_matrix', 'c04_parity', 'c05_tables', 'c05_encode', 'c05_unsupported']:
     MODE_HARNESS[_m] = ('h_format', 'asan')
 for _m in ['c05_decode_sweep', 'c01', 'c01_xor_sweep', 'c01_rs_sweep', 'c01_isa_sweep', 'c02', 'c02_subsets', 'c02_band', 'c03', 'c03_xor_sweep', 'c03_rs_sweep', 'c20']:
